@@ -30,7 +30,7 @@ var c12Tokens = []string{
 	// bytes that are not UTF-8, a rune whose lower case is shorter
 	"\xff", "\u212a", "||a.com^*",
 	// modifiers cut off after "=", white space other than blank and tab
-	"$client=", "$ctag=", "$denyallow=", "$dnstype=", "\u00a0", "\v",
+	"$client=", "$ctag=", "$denyallow=", "$dnstype=", "\u00a0", "\v", "$denyallow=b.com",
 	"0.0.0.0 a.com", "\r", "\f",
 }
 
@@ -53,7 +53,12 @@ func c12Requests() []*rules.Request {
 	r13 := rules.NewRequestForHostname("a.com")
 	r13.SortedClientTags = []string{"d0", "d1", "d2", "d3", "d4", "d5", "d6", "d7", "d8", "d9"}
 	r13.ClientName, r13.DNSType = strings.Repeat("n", 300), 28
-	return []*rules.Request{r1, r2, r3, r4, r5, r6, r7, r8, r9, r10, r11, r12, r13}
+	// host names that are bracketed or half-bracketed address literals, the empty host name
+	r14 := rules.NewRequestForHostname("[::1")
+	r15 := rules.NewRequestForHostname("[dead.beef")
+	r16 := rules.NewRequestForHostname("")
+	r17 := rules.NewRequest("http://[::1]:8080/x", "http://[fe80::1", rules.TypeScript)
+	return []*rules.Request{r1, r2, r3, r4, r5, r6, r7, r8, r9, r10, r11, r12, r13, r14, r15, r16, r17}
 }
 
 // Termination watchdog.  "Parsing any line ... terminates": a parser that loops
@@ -202,9 +207,19 @@ func c12CheckLine(c *Ctx, line string, reqs []*rules.Request, engines bool) (acc
 			ne.Match(q)
 			en.MatchRequest(q)
 		}
-		for _, h := range []string{"a.com", "0.0.0.0", "x"} {
+		for _, h := range []string{"a.com", "0.0.0.0", "x", "[::1"} {
 			res, _ := de.Match(h)
 			res.DNSRewrites()
+			// a result is read more than once, through every accessor
+			res.DNSRewritesAll()
+			res.DNSRewrites()
+			res.DNSRewritesAll()
+			if b := rules.GetDNSBasicRule(res.NetworkRules); b != nil {
+				_ = b.Text()
+			}
+			for _, nr := range res.NetworkRules {
+				_ = nr.Text()
+			}
 			en.GetCosmeticResult(h, rules.CosmeticOptionAll)
 		}
 	}); pm != nil {
